@@ -69,5 +69,23 @@ def main(argv=None):
         return 2
 
 
+def _scoped_main():
+    """Runs main() with a run-scoped scratch directory (VERIF_RUN_TMP) that is removed when the run ends,
+    whatever its forked workers left in it (multiprocessing workers exit without running atexit hooks)."""
+    import shutil
+    import tempfile
+
+    if os.environ.get("VERIF_RUN_TMP"):
+        return main()
+    top = os.getpid()
+    run_tmp = tempfile.mkdtemp(prefix="verif-run-", dir="/var/tmp")
+    os.environ["VERIF_RUN_TMP"] = run_tmp
+    try:
+        return main()
+    finally:
+        if os.getpid() == top:
+            shutil.rmtree(run_tmp, ignore_errors=True)
+
+
 if __name__ == "__main__":
-    sys.exit(main())
+    sys.exit(_scoped_main())
